@@ -68,6 +68,11 @@ func forceSplineSafe(rt *rapid.T, c *Case, _ bool) {
 			c.Pos = pick(rt, "ds_pos", 4)
 		}
 	}
+	if c.Pos == PosNS {
+		// integer grid: integer widths and an integer NodeSpacing >= 1
+		c.Fixed.W = intDims[rapid.IntRange(1, len(intDims)-1).Draw(rt, "ds_w_int")]
+		c.NS = ptr(intDims[rapid.IntRange(1, len(intDims)-1).Draw(rt, "ds_ns_int")])
+	}
 }
 
 func layoutFinite(l graph.Layout) error {
